@@ -553,4 +553,19 @@ def t1_typestate(chk):
     compile_ts.ts_rule(chk, 'C20.T1', ['status-effect', 'abort', 'nowrite-switch'])
 
 
-RULES = [r1_exit_codes, r2_report, r3_options, r4_mibcopy, r5_statuses_backed_by_writes, r6_format_wiring, r7_argument_agreement, r8_failed_leaves_no_file, r9_wellformedness, t1_typestate]
+
+def r10_no_stray_files(chk):
+    """the destination directory holds exactly the reported modules: a failed store must not leave its temporary file
+    there - shared with C13.R2 / C13.R4"""
+    from rules.C13 import r2_typestate, r4_cleanup
+    common.reuse(chk, r2_typestate, ('C13.R2',), 'C20.R10',
+                 'file writers: one mkstemp in the destination directory, one rename onto the destination name '
+                 '(C13.R2); every failure between them unlinks the temporary file through the variable mkstemp '
+                 'assigned and raises the writer error (C13.R4)', floor=4)
+    common.reuse(chk, r4_cleanup, ('C13.R4',), 'C20.R10',
+                 'file writers: one mkstemp in the destination directory, one rename onto the destination name '
+                 '(C13.R2); every failure between them unlinks the temporary file through the variable mkstemp '
+                 'assigned and raises the writer error (C13.R4)', floor=4)
+
+
+RULES = [r1_exit_codes, r2_report, r3_options, r4_mibcopy, r5_statuses_backed_by_writes, r6_format_wiring, r7_argument_agreement, r8_failed_leaves_no_file, r9_wellformedness, t1_typestate, r10_no_stray_files]
